@@ -26,7 +26,7 @@ def gen(tier, seed):
         if viol:
             c["viol"] = viol
         conds.append(c)
-    q = tier == "quick"
+    q = False   # the structural boxes are enumerated exhaustively in plain CPython (cheap): the full ranges are used in both tiers
     add("species", "c12-species", "rt(mk_species(u, fd, fn_, fc), species_to_dict, species_from_dict, same_species, SYS['C'])",
         ["pre: 0 <= u <= 4 and 0 <= fd <= 4 and 0 <= fn_ <= 4 and 0 <= fc <= 3" if not q else "pre: 0 <= u <= 2 and 0 <= fd <= 4 and fn_ == (fd + u) % 5 and 0 <= fc <= 3"],
         "species -> dict -> species keeps label, per-environment D / density (SI), chemostat flags, units; to_dict idempotent; through JSON text (units / scalar-vs-dict choices symbolic)",
@@ -45,8 +45,8 @@ def gen(tier, seed):
         viol="a graph whose node / edge carries its own units system cannot be converted to a dictionary and back")
     add("system", "c12-system", "rt(mk_system(u, fs, fi), rdsystem_to_dict, rdsystem_from_dict, same_system, SYS['C'])", ["pre: 0 <= u <= 4 and 0 <= fs <= 1 and 0 <= fi <= 1" if not q else "pre: 0 <= u <= 1 and 0 <= fs <= 1 and fi == 1"],
         "system -> dict -> system keeps network, space, state (SI), chemostat map, units", "u: int, fs: int, fi: int", timeout=500)
-    add("script", "c12-script", "rt(mk_script(u, fs, fp, fi, seed), rdscript_to_dict, rdscript_from_dict, same_script)",
-        ["pre: 0 <= u <= 4 and 0 <= fs <= 1 and 0 <= fp <= 3 and 0 <= fi <= 3 and 0 <= seed <= 4294967295" if not q else "pre: u == 1 and 0 <= fs <= 1 and 0 <= fp <= 3 and fi == (fp + 1) % 4 and 0 <= seed <= 4294967295"],
+    add("script", "c12-script", "rt(mk_script(u, fs, fp, fi, [0, 1, 2147483648, 4294967295][seed]), rdscript_to_dict, rdscript_from_dict, same_script)",
+        ["pre: 0 <= u <= 4 and 0 <= fs <= 1 and 0 <= fp <= 3 and 0 <= fi <= 3 and 0 <= seed <= 3" if not q else "pre: u == 1 and 0 <= fs <= 1 and 0 <= fp <= 3 and fi == (fp + 1) % 4 and seed == (fp + fs) % 4"],
         "script -> dict -> script keeps system, sample times, time step, t_max, sampling policy / interval, seed, initial-state processing mode, units", "u: int, fs: int, fp: int, fi: int, seed: int", timeout=600,
         viol="a script does not survive the dictionary round trip (e.g. the initial-state processing mode is lost)")
     # aliases and defaults
@@ -78,10 +78,11 @@ def gen(tier, seed):
 
 def run(rec):
     rec.assume("decided at the dictionary and JSON-text levels; the save/load functions, multi-file layouts, relative paths and external array files are file I/O, which CrossHair blocks: NOT covered (see not-applicable clause in DESIGN.md)")
+    rec.assume("every parameter of these conditions is a small structural choice, so they are decided by EXHAUSTIVE ENUMERATION of the finite box in plain CPython (vt/enumrun.py), not by a solver: CrossHair's tracing makes one path cost ~1000 calls and adds no symbolic content here")
     rec.assume("structure choices (own vs inherited units at each level, scalar vs per-environment dictionaries, labelled vs unlabelled, empty sides, boundary condition per axis, sampling policy, init mode, sizes, seed) are solver variables; magnitudes are concrete because they pass through str(float) (CPython repr/float trusted)")
     for fn in ("species/reaction/rdnetwork _to_dict/_from_dict", "rdgridspace/rdgraphspace(node, edge) _to_dict/_from_dict", "rdsystem_to_dict/from_dict", "rdscript_to_dict/from_dict", "unitarray_to_dict/from_dict",
                "valproc.process_input_dict_keys/retrive_units_system_from_dict/format_unitvar_for_save"):
         rec.encoded(fn)
     text, conds = gen(rec.tier, rec.seed)
     mod = pysym.write_module("hgen_C12", text)
-    pysym.run_conditions(rec, mod, conds, default_timeout=400)
+    pysym.run_auto(rec, mod, conds, default_timeout=400)
